@@ -371,7 +371,10 @@ theorem indexDef_quiet (n : PTree) (h : coreDef n = true) : Keeps Quiet (indexDe
   refine Keeps.bind quiet_sameFileDefset fun ds => ?_
   dsimp only
   split
-  · refine Keeps.bind (quiet_indexNameValue _) fun x => ?_
+  all_goals first
+    | refine Keeps.bind (quiet_indexNameValue _) fun named => ?_
+    | refine Keeps.bind (Keeps.pure _) fun named => ?_
+  all_goals
     split
     · refine Keeps.bind quiet_currentMulticlassId fun m => ?_
       split
@@ -383,11 +386,10 @@ theorem indexDef_quiet (n : PTree) (h : coreDef n = true) : Keeps Quiet (indexDe
         split
         · exact Keeps.bind (quiet_defsetMut _ _) fun _ => htail id
         · exact htail id
-    · exact Keeps.pure _
-  · refine Keeps.bind quiet_nextAnonymousDefName fun nm => ?_
-    refine Keeps.bind currentFileId_keeps fun f => ?_
-    refine Keeps.bind (quiet_addAnonymousDef _) fun id => ?_
-    exact htail id
+    · refine Keeps.bind quiet_nextAnonymousDefName fun nm => ?_
+      refine Keeps.bind currentFileId_keeps fun f => ?_
+      refine Keeps.bind (quiet_addAnonymousDef _) fun id => ?_
+      exact htail id
 
 theorem indexStatement_quiet (s : PTree) (h : coreStatement s = true) :
     Keeps Quiet (indexStatement (mkRec (k + 1)) s) := by
